@@ -641,9 +641,14 @@ class FuncLowerer:
             if self.ret_type == ('b', 'void'):
                 return [pad + self.expr(e) + ';'] + [pad + x for x in exits] + [pad + 'return;']
             val = self.addr(e) if self.ret_is_ref else self.value_expr(e, self.ret_type)
-            if exits:
-                t = self.fresh_tmp(self.ret_type)
-                return [pad + '%s = %s;' % (t, val)] + [pad + x for x in exits] + [pad + 'return %s;' % t]
+            # temporaries of the returned full-expression are destroyed after the value is computed and before the locals
+            tmpd = list(reversed(self.pending_dtors))
+            self.pending_dtors = []
+            if self.ret_is_ref and tmpd:
+                abort('returning a reference computed from temporaries with destructors', s)
+            if exits or tmpd:
+                t = self.fresh_tmp(('ptr', self.ret_type) if self.ret_is_ref else self.ret_type)
+                return [pad + '%s = %s;' % (t, val)] + [pad + x for x in tmpd] + [pad + x for x in exits] + [pad + 'return %s;' % t]
             return [pad + 'return %s;' % val]
         if k == 'IfStmt':
             inner = list(s.get('inner', []))
@@ -736,6 +741,7 @@ class FuncLowerer:
                 abort('range-for shape (%d children)' % len(inner), s)
             init, rng, beg, end, cond, inc, var, body = inner
             out = [pad + '{']
+            self.scope_exits.append([])      # __range / __begin / __end live in this block
             for d in (init, rng, beg, end):
                 if d and d.get('kind'):
                     out += self.stmt(d, ind + 1)
@@ -753,6 +759,7 @@ class FuncLowerer:
                 out += self.stmt(body, ind + 2)
             out += [pad + '    ' + x for x in self.scope_exits.pop()]
             out.append(pad + '  }')
+            out += [pad + '  ' + x for x in self.scope_exits.pop()]
             out.append(pad + '}')
             return out
         if k in ('GotoStmt', 'LabelStmt', 'CXXTryStmt', 'CoreturnStmt', 'CXXThrowExpr', 'AttributedStmt'):
@@ -969,6 +976,10 @@ class FuncLowerer:
             return self.expr(e['inner'][0])
         return str(e['value'])
 
+    def e_CXXRewrittenBinaryOperator(self, e):
+        # C++20: a != b rewritten by the compiler as !(a == b) etc.; the child is the rewritten expression
+        return self.expr(e['inner'][0])
+
     def e_ExprWithCleanups(self, e):
         return self.expr(e['inner'][0])
 
@@ -990,6 +1001,10 @@ class FuncLowerer:
         si = self.strip_wrappers(inner)
         if si.get('kind') in ('CXXConstructExpr', 'CXXTemporaryObjectExpr'):
             return '(%s, %s)' % (self.construct_into('&' + t, ty, si), t)
+        if si.get('kind') == 'InitListExpr' and ty[0] == 'rec':
+            # aggregate initialisation of the temporary itself (no intermediate copy that would be destroyed in its place)
+            stmts = self.init_list_into(t, ty, si, 0)
+            return '(%s, %s)' % (', '.join(x.strip().rstrip(';') for x in stmts), t)
         return '(%s = %s, %s)' % (t, self.expr(inner), t)
 
     def e_SubstNonTypeTemplateParmExpr(self, e):
@@ -1030,7 +1045,7 @@ class FuncLowerer:
         if ty[0] == 'rec' and si.get('kind') == 'LambdaExpr':
             return self.e_LambdaExpr(si)
         b = inner
-        while b.get('kind') in ('ExprWithCleanups', 'FullExpr') or (b.get('kind') == 'ImplicitCastExpr' and b.get('castKind') == 'NoOp'):
+        while b.get('kind') in ('ExprWithCleanups', 'FullExpr') or (b.get('kind') in ('ImplicitCastExpr', 'CXXFunctionalCastExpr') and b.get('castKind') in ('NoOp', 'ConstructorConversion')):
             b = b['inner'][0]
         if ty[0] == 'rec' and b.get('kind') == 'CXXBindTemporaryExpr':
             # the bound temporary *is* the materialised object: no second copy (a copy would be destroyed in its place)
